@@ -84,7 +84,10 @@ func buildCtx(base context.Context, p ctxPlan, deadline time.Duration) (context.
 // The case's own oracle is then evaluated at the frozen virtual instant.  If
 // neither fact shows up the case is INCONCLUSIVE.  A wedged bubble cannot be
 // recovered; it is abandoned (its goroutines leak until the process ends) and
-// the run goes on.
+// the run goes on with the next case.  A leaked spinner keeps allocating (the
+// garbage collector then slows every later bubble by two orders of magnitude),
+// so after an abandoned bubble the remaining families are skipped — the
+// verdict is in by then.
 
 type hb struct {
 	beats   atomic.Int64
@@ -215,9 +218,9 @@ func classify(bubble int64, k int, gap time.Duration, moved func() bool) (string
 }
 
 const (
-	stallAfter   = 20 * time.Second  // heartbeat silent this long: start looking
+	stallAfter   = 10 * time.Second  // heartbeat silent this long: start looking
 	giveUpAfter  = 150 * time.Second // nothing recognisable: inconclusive
-	snapCount    = 15
+	snapCount    = 12
 	snapInterval = 200 * time.Millisecond
 )
 
